@@ -1,6 +1,8 @@
 (* C09 model driver.  One case per line:
      calls <ncopies> <size of flush 1> <size of flush 2> ...
         prints the calls of SaveModel.save_ops as  <call>:<copy index>:<byte count>  separated by blanks;
+     needwrite <size|-> ...
+        prints true | false : LoadChoice.need_write for copies of these sizes ('-' = missing);
      decode <hex bytes>
         prints ok | eof | bad : NoConfModel.decode_class (CodecModel.decode without configuration file).
    Glue only: parsing, N <-> int, printing. *)
@@ -28,6 +30,11 @@ let () =
            let cs = save_calls (n_of_int n) (List.map (fun s -> n_of_int (int_of_string s)) sizes) in
            print_endline (String.concat " " (List.map (fun ((c, i), k) -> Printf.sprintf "%s:%d:%d" (call_str c) (int_of_n i) (int_of_n k)) cs))
          end
+       | "needwrite" :: copies ->
+         (* one token per configured copy: '-' = missing, else its size; the bytes do not matter to need_write *)
+         let mk t = if t = "-" then None else Some (List.init (int_of_string t) (fun _ -> N0)) in
+         if List.exists (fun t -> t <> "-" && int_of_string t > 1 lsl 20) copies then print_endline "badinput"
+         else print_endline (if need_write (List.map mk copies) then "true" else "false")
        | ["decode"; hex] ->
          let n = String.length hex / 2 in
          let bytes = List.init n (fun i -> n_of_int (int_of_string ("0x" ^ String.sub hex (2 * i) 2))) in
